@@ -15,9 +15,10 @@
    replayed on the unpatched code, see NOTES.md).
    Sections: 1-3 one manager; 4 machine variables; 5 direct FileManager.save; 6 two managers sharing
    FileManager.is_busy (Two.v); 7 crash points at os-call level, 8 power loss (Crash.v); 9 the
-   snapshot under concurrent assignments (Copy.v). *)
+   snapshot under concurrent assignments (Copy.v); 10 the shutdown path (_do_stop) and failed snapshots at
+   shutdown (Stop.v); 11 remove_machine_var and the reboot (Vars2.v). *)
 From Common Require Import Prelude.
-From C15 Require Import Model Lemmas Two TwoLemmas TwoLive Crash Copy.
+From C15 Require Import Model Lemmas Two TwoLemmas TwoLive Crash Copy Stop Vars2.
 Open Scope Z_scope.
 
 (* 1. never torn — every cfg, every schedule (saves, shutdown, crashes, I/O errors at any step),
@@ -340,3 +341,78 @@ Theorem snapshot_consistent_refuted :
                 forall pre post, ops = pre ++ post -> live (crun (mkc l []) pre) <> snap (crun (mkc l []) ops).
 Proof. exact snapshot_mixed_refuted_l. Qed.
 Print Assumptions snapshot_consistent_refuted.
+
+(* 10. The shutdown path (Stop.v; tie: suite "stop", which runs the real MachineController._do_stop / shutdown
+       with a real EventManager).  First: clean shutdown is durable for histories WITH failed snapshots
+       (CopyFail) before the shutdown request - the strengthening of theorem 2 that the except branch's
+       `self._dirty.set()` buys. *)
+Theorem clean_shutdown_durable_failed_snapshots :
+  forall (fb ifile : bool) (itemp : Z) (ops : list op) (v : Z),
+    cleanc_from false ops = true ->
+    last_saved ops = Some v ->
+    pc (run (true, fb, true) (init ifile itemp) ops) = PDone ->
+    file (run (true, fb, true) (init ifile itemp) ops) = Some (v, TFull).
+Proof. exact clean_shutdown_durable_failed_snapshots_l. Qed.
+Print Assumptions clean_shutdown_durable_failed_snapshots.
+
+(* ... and FALSE of a writer that does not set _dirty again when the snapshot failed (run_nd): the data is
+   neither retried nor flushed *)
+Theorem snapshot_not_rearmed_refuted :
+  exists ops v,
+    cleanc_from false ops = true /\ last_saved ops = Some v /\
+    pc (run_nd (true, true, true) (init false 0) ops) = PDone /\
+    file (run_nd (true, true, true) (init false 0) ops) <> Some (v, TFull).
+Proof. exact snapshot_not_rearmed_refuted_l. Qed.
+Print Assumptions snapshot_not_rearmed_refuted.
+
+(* _do_stop: every save issued before or DURING _do_stop - by the handlers of the shutdown event and of the
+   events they post, in any number, with the writer thread at any point of its loop when _do_stop starts and
+   running at any speed meanwhile, failed snapshots included - is followed by the shutdown request; once the
+   writer thread has ended the last of them is on disk ... *)
+Theorem do_stop_durable :
+  forall (fb ifile : bool) (itemp : Z) (pre : list op) (hs : list (list op)) (post : list op) (v : Z),
+    quiet pre = true -> forallb quiet hs = true -> forallb is_tick post = true ->
+    last_saved (pre ++ concat hs) = Some v ->
+    pc (run (true, fb, true) (init ifile itemp) (stop_ops pre hs post)) = PDone ->
+    file (run (true, fb, true) (init ifile itemp) (stop_ops pre hs post)) = Some (v, TFull).
+Proof. exact do_stop_durable_l. Qed.
+Print Assumptions do_stop_durable.
+
+(* ... and the writer thread does end: after ANY history, 24 thread steps after the shutdown request *)
+Theorem stop_terminates :
+  forall (ff ifile : bool) (itemp : Z) (ops : list op) (k : nat),
+    let s := run (ff, true, true) (init ifile itemp) ops in
+    crashed s = false -> stopper s = true ->
+    pc (run (ff, true, true) s (ticks (24 + k))) = PDone.
+Proof. exact stop_terminates_l. Qed.
+Print Assumptions stop_terminates.
+
+(* the ORDER inside _do_stop is needed: with the shutdown request made before the handlers run, a save from a
+   handler of the shutdown event is lost *)
+Theorem stopper_before_handlers_refuted :
+  exists pre hs post v,
+    quiet pre = true /\ forallb quiet hs = true /\ forallb is_tick post = true /\
+    last_saved (pre ++ concat hs) = Some v /\
+    pc (run (true, true, true) (init false 0) (early_stop_ops pre hs post)) = PDone /\
+    file (run (true, true, true) (init false 0) (early_stop_ops pre hs post)) <> Some (v, TFull).
+Proof. exact stopper_before_handlers_refuted_l. Qed.
+Print Assumptions stopper_before_handlers_refuted.
+
+(* 11. remove_machine_var (Vars2.v; tie: suite "vars" with removals as the last change before power off).
+       After remove_machine_var(n) - as the last op, or followed by anything that does not set or configure
+       n again - no boot at any time reloads n, with any value.  (The converse of persist_reload_equal:
+       what is not a variable any more does not come back.) *)
+Theorem removed_var_not_reloaded :
+  forall (ops : list vop) (n : Z) (tail : list vop) (now : Z) (v : option Z),
+    forallb (not_creating n) tail = true ->
+    ~ In (n, v) (reload now (vdisk (vrun vinit (ops ++ VRemove n :: tail)))).
+Proof. exact removed_var_not_reloaded_l. Qed.
+Print Assumptions removed_var_not_reloaded.
+
+(* ... and FALSE of a remove_machine_var that writes the file before deleting the variable (vstep_wb) *)
+Theorem remove_write_before_delete_refuted :
+  exists ops n now v,
+    In (n, v) (reload now (vdisk (fold_left vstep_wb (ops ++ [VRemove n]) vinit))) /\
+    vlookup n (vstore (fold_left vstep_wb (ops ++ [VRemove n]) vinit)) = None.
+Proof. exact remove_write_before_delete_refuted_l. Qed.
+Print Assumptions remove_write_before_delete_refuted.
